@@ -15,6 +15,8 @@ What is proved here (for all inputs; `decide` is used only over the finite gener
   * C12_oversize, C12_envelope_* — see the Envelope section.
 -/
 import ErgoVerif.Lemmas.Stream
+import ErgoVerif.Lemmas.Frame
+import ErgoVerif.Lemmas.Envelope
 import ErgoVerif.Model.Link
 namespace ErgoVerif.Props.C12
 open ErgoVerif.Stream ErgoVerif.Generated.Proto
@@ -81,5 +83,124 @@ example : readAll (linkCfg 0) RState.init [f1 ++ f2] = (⟨[], none⟩, [f1, f2]
 example : readAll (linkCfg 0) RState.init [[78], [1, 0, 0, 0], [9, 0, 199, 7, 78, 1, 0], [0, 0, 10, 3, 101, 1, 2]]
     = (⟨[], none⟩, [f1, f2]) := by decide
 example : readAll (linkCfg 16) RState.init ((f1 ++ f2).map fun b => [b]) = (⟨[], none⟩, [f1, f2]) := by decide
+
+/-! ## Frames: for every frame kind the receive case recovers what the writer method put in -/
+section Frames
+open ErgoVerif.Frame
+
+/-- the extractor found a writer method and a receive case for exactly these message types
+    (every Send*/Call*/SendTerminate* method of gen.Connection, both name variants, and sendAny) -/
+theorem C12_kinds_complete :
+    wireKinds.map (·.typ) =
+      [101, 102, 103, 104, 105, 106, 107, 121, 122, 123, 124, 129, 130, 181, 182, 183, 184, 185, 186, 199] := by
+  decide
+
+/-- message-type bytes identify the kind -/
+theorem C12_types_distinct : (kinds.map (·.typ)).Nodup := by decide
+
+/-- writer and reader tables of every kind agree: same field at the same offset with the same width,
+    fields do not overlap, flags are OR-ed after the byte they live in is written, the name and the
+    payload start where the writer put them (checked over the GENERATED tables) -/
+theorem C12_layouts_ok : ∀ k ∈ wireKinds, LayoutOK k = true := by decide
+
+/-- every EDF payload is at least 2 bytes (a type tag and a value; `nil` is refused by the encoder),
+    which is enough to pass the first length guard of every receive case, whatever the name -/
+theorem C12_guards_reachable : ∀ k ∈ wireKinds, k.guard ≤ k.alloc + 2 := by decide
+
+/-- read ∘ write = id, for every frame kind and every message whose field values fit their width:
+    the receive case obtains exactly the payload bytes and the inline name that were sent, and every
+    header field it extracts (sender id, addressee id / alias words, priority, the three reference
+    words, timestamp, cache id, error code, important flag) has the value the writer stored. -/
+theorem C12_frame_roundtrip (k : Kind) (hk : k ∈ wireKinds) (m : Msg) (hf : m.fits k) :
+    ∃ p, parse k (encode k m) = .ok p ∧
+         p.payload = m.payload ∧
+         p.name = (if k.inlineName then m.name else []) ∧
+         ∀ x ∈ expectedFields k m, x ∈ p.fields :=
+  parse_encode k (C12_layouts_ok k hk) m hf
+
+/-- the payload handed to the decoder is always a suffix of the frame (nothing foreign is decoded) -/
+theorem C12_payload_is_suffix (k : Kind) (f : List UInt8) (p : Parsed) (h : parse k f = .ok p) :
+    ∃ pre, f = pre ++ p.payload :=
+  parse_ok_payload_suffix k f p h
+
+/-! non-vacuity: an important SendPID and a CallProcessID with an inline name -/
+def vals0 : Vals := fun n =>
+  if n = "from.ID" then 1021 else if n = "to.ID" then 77 else if n = "options.Priority" then 2
+  else if n = "options.Ref.ID[0]" then 123456789 else if n = "options.Ref.ID[1]" then 5
+  else if n = "options.Ref.ID[2]" then 6 else 3
+def msg0 : Msg := ⟨vals0, true, [65, 66, 67], [141, 0, 1, 120]⟩
+example : (kindOf 101).map (fun k => parse k (encode k msg0)) =
+    some (.ok ⟨[("from.ID", 1021), ("options.Priority", 2), ("important", 128), ("to.ID", 77), ("options.Ref.ID[0]", 123456789)],
+               [], [141, 0, 1, 120]⟩) := by decide
+example : (kindOf 122).map (fun k => (parse k (encode k msg0))) =
+    some (.ok ⟨[("from.ID", 1021), ("options.Priority", 2), ("important", 128), ("options.Ref.ID[0]", 123456789),
+                ("options.Ref.ID[1]", 5), ("options.Ref.ID[2]", 6), ("name.len", 3)], [65, 66, 67], [141, 0, 1, 120]⟩) := by decide
+/-- a frame shorter than its kind's guard is dropped, never mis-parsed -/
+example : (kindOf 101).map (fun k => parse k ((encode k msg0).take 29)) = some .dropped := by decide
+
+end Frames
+
+/-! ## send(): compression envelope and the size check before the write -/
+section Envelope
+open ErgoVerif.Frame ErgoVerif.Envelope
+
+/-- compression happens exactly when it is enabled and the frame is LONGER than the threshold -/
+theorem C12_threshold (c : Comp) (frame : List UInt8) :
+    wantsZ c frame = true ↔ c.enable = true ∧ (frame.length : Int) > c.threshold := by
+  simp [wantsZ, zStrictThreshold]
+
+/-- oversize ⇒ refused at the sender with nothing written: whenever what would go on the wire is
+    longer than the peer's limit, send() returns the error instead of a frame -/
+theorem C12_oversize (cd : Codec) (peerMax : Nat) (c : Comp) (frame : List UInt8) (hmax : peerMax > 0)
+    (hbig : (if wantsZ c frame then envelope cd c.ctype frame else frame).length > peerMax) :
+    send cd peerMax c frame = none := by
+  simp only [send, sendChecksMax, Bool.true_and]
+  simp [hmax, hbig]
+
+/-- … and whatever is written respects the limit -/
+theorem C12_written_within_limit (cd : Codec) (peerMax : Nat) (c : Comp) (frame out : List UInt8)
+    (h : send cd peerMax c frame = some out) : peerMax = 0 ∨ out.length ≤ peerMax := by
+  simp only [send, sendChecksMax, Bool.true_and] at h
+  by_cases hb : peerMax > 0 ∧ (if wantsZ c frame = true then envelope cd c.ctype frame else frame).length > peerMax
+  · simp [hb] at h
+  · simp [hb] at h
+    subst h
+    omega
+
+/-- a writer that checks the limit before building the header refuses on the plain length already -/
+theorem C12_oversize_early (cd : Codec) (k : Kind) (hk : k.earlyMax = true) (peerMax : Nat) (c : Comp) (m : Msg)
+    (hmax : peerMax > 0) (hbig : (encode k m).length > peerMax) : sendKind cd k peerMax c m = none := by
+  simp [sendKind, hk, hmax, hbig]
+
+/-- below the threshold, or with compression off, the frame goes out unchanged -/
+theorem C12_plain (cd : Codec) (peerMax : Nat) (c : Comp) (frame : List UInt8)
+    (hz : wantsZ c frame = false) (hfit : peerMax = 0 ∨ frame.length ≤ peerMax) :
+    send cd peerMax c frame = some frame := by
+  simp only [send, hz, sendChecksMax, Bool.true_and]
+  have : ¬ (peerMax > 0 ∧ frame.length > peerMax) := by omega
+  simp [this]
+
+/-- envelope round trip: under the HYPOTHESIS that the decompressor undoes the compressor, the
+    compressed receive case yields exactly the frame send() wrapped, for every compression id and frame -/
+theorem C12_envelope_roundtrip (cd : Codec) (hrt : ∀ t b, cd.decomp t (cd.comp t b) = some b)
+    (t : Nat) (ht : t < 256) (frame : List UInt8) (hl : frame.length < 2 ^ 32) :
+    openEnvelope cd (envelope cd t frame) = some frame :=
+  open_envelope cd hrt t ht frame hl
+
+/-- the envelope is itself a frame the reader accepts (so `C12_segmentation` applies to it), and it
+    keeps the order byte of the message it carries -/
+theorem C12_envelope_wellformed (cd : Codec) (t : Nat) (frame : List UInt8) (max : Nat)
+    (hl : zPreallocate + 4 + (cd.comp t frame).length < 2 ^ 32)
+    (hm : max > 0 → (envelope cd t frame).length ≤ max) :
+    WF (linkCfg max) (envelope cd t frame) ∧ (envelope cd t frame).getD 6 0 = frame.getD 6 0 := by
+  refine ⟨⟨?_, envelope_lenField cd t frame hl, hm, ?_, ?_⟩, envelope_order cd t frame⟩
+  · rw [envelope_length]; simp [zPreallocate]; omega
+  · rw [envelope_length]; show readMinLen ≤ _; simp [readMinLen, zPreallocate]; omega
+  · rw [envelope_eq, be4_explicit]; rfl
+
+/-- the round-trip hypothesis is satisfiable (identity codec), so the theorem is not vacuous -/
+example : ∃ cd : Codec, ∀ t b, cd.decomp t (cd.comp t b) = some b := ⟨⟨fun _ b => b, fun _ b => some b⟩, fun _ _ => rfl⟩
+
+end Envelope
 
 end ErgoVerif.Props.C12
